@@ -164,6 +164,49 @@ def groupByDS (keyOf : String → Except Err String) (d : DS) : Except Err DS :=
               let vs ← olds.mapM fun o => d.value f o
               pure (.dict (olds.map .str) vs) }
 
+/-! ### Split -/
+
+/-- the `(new id, part)` pairs one call of `__split__` yields -/
+def splitPairs : Val → Except Err (List (String × Val))
+  | .none => .ok []
+  | .tup xs => xs.mapM fun x => match x with
+    | .tup [.str new, part] => Except.ok (new, part)
+    | _ => .error .typeError
+  | _ => .error .typeError
+
+/-- `SplitMapping`: new id ↦ (old id, part); a new id produced twice is an error (`assert new not in mapping`) -/
+def addPairs (old : String) : List (String × Val) → List (String × String × Val) → Except Err (List (String × String × Val))
+  | [], m => .ok m
+  | (new, part) :: rest, m =>
+    if m.any (·.1 == new) then .error .assertionError else addPairs old rest (m ++ [(new, old, part)])
+
+def splitMapping (splitOf : String → Except Err (List (String × Val))) :
+    List String → List (String × String × Val) → Except Err (List (String × String × Val))
+  | [], m => .ok m
+  | old :: rest, m => do
+    let pairs ← splitOf old
+    let m' ← addPairs old pairs m
+    splitMapping splitOf rest m'
+
+/-- `Split`: `fields` are the layer's own fields (name, function over previous fields at the old id and the part);
+`inherits` says which previous fields pass through -/
+def splitDS (splitOf : String → Except Err (List (String × Val)))
+    (own : List (String × (String → Val → Except Err Val))) (inherits : String → Bool) (d : DS) : DS :=
+  let mapping := d.ids.bind fun ids => splitMapping splitOf ids []
+  { fields := "id" :: own.map (·.1) ++ d.fields.filter fun f => f != "id" && !(own.any (·.1 == f)) && inherits f
+    ids := mapping.map fun m => sortDedup (m.map (·.1))
+    value := fun f new =>
+      if f == "id" then .ok (.str new)
+      else match mapping with
+        | .error e => .error e
+        | .ok m =>
+          match m.find? (·.1 == new) with
+          | none => .error .keyError
+          | some (_, old, part) =>
+            match own.find? (·.1 == f) with
+            | some (_, fn) => fn old part
+            | none => d.value f old }
+
 /-! ### Join -/
 
 inductive JoinMode where | inner | left | right | outer
